@@ -169,10 +169,12 @@ pub struct Prepared {
     pub chars: Rc<[char]>,
     pub eof_at: Option<usize>,
     pub n_chars: usize,
+    /// `Parser::keep_tags` configuration of every parser built for this case.
+    pub keep_tags: bool,
 }
 
 impl Prepared {
-    pub fn new(text: &str, eof_at: Option<usize>) -> Prepared {
+    pub fn new(text: &str, eof_at: Option<usize>, keep_tags: bool) -> Prepared {
         let chars: Vec<char> = text.chars().collect();
         let n = chars.len();
         let eof_at = eof_at.filter(|e| *e < n);
@@ -186,6 +188,7 @@ impl Prepared {
             chars: chars.into(),
             eof_at,
             n_chars: eof_at.unwrap_or(n),
+            keep_tags,
         }
     }
 }
@@ -202,20 +205,20 @@ pub fn with_parser<V: ParserVisitor>(kind: InputKind, prep: &Prepared, v: V) -> 
             if prep.eof_at.is_some() {
                 clock::probe(clock::Probe::SourceEofEarly);
             }
-            v.visit(Parser::new(Ticking(StrInput::new(&prep.cut))))
+            v.visit(Parser::new(Ticking(StrInput::new(&prep.cut))).keep_tags(prep.keep_tags))
         }
-        InputKind::Buffered => v.visit(Parser::new(Ticking(BufferedInput::new(SimSource::new(
-            prep.chars.clone(),
-            prep.eof_at,
-        ))))),
+        InputKind::Buffered => v.visit(
+            Parser::new(Ticking(BufferedInput::new(SimSource::new(prep.chars.clone(), prep.eof_at))))
+                .keep_tags(prep.keep_tags),
+        ),
         InputKind::BufferedBare => {
-            v.visit(Parser::new_from_iter(SimSource::new(prep.chars.clone(), prep.eof_at)))
+            v.visit(Parser::new_from_iter(SimSource::new(prep.chars.clone(), prep.eof_at)).keep_tags(prep.keep_tags))
         }
         InputKind::Ring(cap, pol) => {
-            v.visit(Parser::new(SimRing::new(prep.chars.clone(), prep.eof_at, cap, pol)))
+            v.visit(Parser::new(SimRing::new(prep.chars.clone(), prep.eof_at, cap, pol)).keep_tags(prep.keep_tags))
         }
         InputKind::Slice(cap) => {
-            v.visit(Parser::new(SimSlice::new(prep.chars.clone(), prep.eof_at, cap)))
+            v.visit(Parser::new(SimSlice::new(prep.chars.clone(), prep.eof_at, cap)).keep_tags(prep.keep_tags))
         }
     }
 }
@@ -258,7 +261,7 @@ impl ParserVisitor for IterateAll {
 
 /// The reference trace: plain iteration over the real `Parser::new_from_str` (no wrapper at all).
 pub fn reference_trace(prep: &Prepared, max_events: usize) -> Trace {
-    IterateAll { max_events }.visit(Parser::new_from_str(&prep.cut))
+    IterateAll { max_events }.visit(Parser::new_from_str(&prep.cut).keep_tags(prep.keep_tags))
 }
 
 pub fn describe_event(ev: &OwnedEvent, span: &Span) -> String {
